@@ -163,7 +163,7 @@ def check_invariant_result(system, S, E, vin, res, viol, tag):
                 kind = "supplied-changed" if j in S else "dependent-wrong"
                 ratio = got[i] / E[j, i] if E[j, i] else float("nan")
                 viol.append(V(f"{tag}:{system}:{kind}",
-                              f"{system} S={names(S)} nV={nv}: {name} at volume {i} is {got[i]!r}, invariant tensor has {E[j, i]!r} "
+                              f"{system} S={names(S)} nV={nv}: {name} at volume {i} is {float(got[i])!r}, invariant tensor has {float(E[j, i])!r} "
                               f"(ratio {ratio:.6g}, tolerance {tol:.3g})"))
         elif name in cols:
             viol.append(V(f"{tag}:{system}:vanishing-present",
@@ -333,7 +333,7 @@ def run_elastdata(case):
                 elif not abs(got[j] - E[j, i]) <= tol:
                     kind = "supplied-changed" if j in S else "dependent-wrong"
                     viol.append(V(f"c08:elastdata:{s}:{kind}",
-                                  f"{tag}: {name} at volume {i} is {got[j]!r}, invariant tensor has {E[j, i]!r}"))
+                                  f"{tag}: {name} at volume {i} is {got[j]!r}, invariant tensor has {float(E[j, i])!r}"))
             elif j in got:
                 viol.append(V(f"c08:elastdata:{s}:vanishing-present", f"{tag}: vanishing component {name} present ({got[j]!r}) at volume {i}"))
     return {"viol": dedupe(viol), "outcome": f"elastdata:{s}:{'ok' if not viol else 'wrong'}",
